@@ -7,7 +7,13 @@
 ;   height v : nesting depth (uninterpreted; children are strictly lower) - evaluation refuses trees nested deeper
 ;              than its recursion guard (1000), which is a documented limit, so the clauses carry that premise
 ; ---------------------------------------------------------------------------------------------
-(define-fun escS ((s String)) Bool (=> (str.prefixof "$" s) (str.prefixof "$$" s)))
+; escS s : s is not read as a directive: it does not start with "$", or the dollar is doubled, or it is a string such as
+;          $FOO, ${X}, $(cmd): "$" followed by something that is neither a lower-case letter nor an interpolation "$"..."" 
+(define-fun escS ((s String)) Bool
+  (=> (str.prefixof "$" s)
+      (or (str.prefixof "$$" s)
+          (and (not (and (>= (str.len s) 2) (isLowerRune (str.to_code (str.at s 1)))))
+               (not (and (str.prefixof "$""" s) (str.suffixof """" s)))))))
 (define-funs-rec (
   (escV ((v Val)) Bool)
   (escL ((l Lst)) Bool))
